@@ -1,3 +1,4 @@
 import Pw.Props.C02
 import Pw.Props.C17
 import Pw.Props.C20
+import Pw.Props.C10
